@@ -293,6 +293,10 @@ func VerifC16_D_merge_order() {
 	}
 	orders := [][]string{{"f1", "f2", "f3"}, {"f3", "f2", "f1"}, {"f2", "f3", "f1"}, {"f2", "f1", "f3"}}
 	base, okBase := load(orders[0])
+	// reference: the files of one directory may not define the same label twice, whatever the kinds
+	n1, n2, n3 := sym.Choice("name_f1", 3), sym.Choice("name_f2", 3), sym.Choice("name_f3", 3)
+	distinct := n1 != n2 && n1 != n3 && n2 != n3
+	sym.Assert(okBase == distinct, "C16.D2.duplicate-labels-across-files-rejected-exactly")
 	for _, o := range orders[1:] {
 		got, ok := load(o)
 		sym.Assert(ok == okBase, "C16.D2.accept-reject-independent-of-load-order")
